@@ -1,9 +1,6 @@
 // Prelude fragment: std functions vstd lacks + verified replacements for iterator algebra (R12).
 use vstd::prelude::*;
 use vstd::std_specs::cmp::OrdSpec;
-use rustybgp_packet::bgp::{self, Capability, Family, HoldTime, PeerCodec};
-use rustybgp_packet::Notification;
-use fnv::FnvHashMap;
 verus! {
 // ---- std ---------------------------------------------------------------------------------------
 
@@ -28,15 +25,15 @@ pub assume_specification<T, F: FnOnce(T) -> bool + core::marker::Destruct>[ Opti
 pub fn vx_any<T, F: Fn(&T) -> bool>(v: &[T], f: F) -> (r: bool)
     requires forall|i: int| 0 <= i < v@.len() ==> call_requires(f, (&v@[i],)),
     ensures
-        r ==> exists|i: int| 0 <= i < v@.len() && call_ensures(f, (&v@[i],), true),
-        !r ==> forall|i: int| 0 <= i < v@.len() ==> call_ensures(f, (&v@[i],), false),
+        r ==> exists|i: int| #![trigger v@[i]] 0 <= i < v@.len() && call_ensures(f, (&v@[i],), true),
+        !r ==> forall|i: int| #![trigger v@[i]] 0 <= i < v@.len() ==> call_ensures(f, (&v@[i],), false),
 {
     let mut k: usize = 0;
     while k < v.len()
         invariant
             0 <= k <= v@.len(),
             forall|i: int| 0 <= i < v@.len() ==> call_requires(f, (&v@[i],)),
-            forall|i: int| 0 <= i < k ==> call_ensures(f, (&v@[i],), false),
+            forall|i: int| #![trigger v@[i]] 0 <= i < k ==> call_ensures(f, (&v@[i],), false),
         decreases v@.len() - k,
     {
         if f(&v[k]) {
